@@ -215,6 +215,18 @@ def run(ctx):
             for d in defs:
                 if "apiKey" in d and idx["keys"].get(str(d["apiKey"])) is None:
                     fails.append({"what": "API key missing from the generated index", "definition": d["name"]})
+            # … and so does the index module as it is written to disk (same maps, every entry non-empty)
+            wr = res.get("index_written")
+            if wr is not None:
+                wl = {p.split(":")[0] for vm in wr["names"].values() for tm in vm.values() for p in tm.values()}
+                empty = [(n, v) for n, vm in wr["names"].items() for v, tm in vm.items() if not tm]
+                if wl != gen_listed or empty or wr["keys"] != idx["keys"]:
+                    fails.append({"what": "the index module as written does not list exactly the generated modules",
+                                  "missing": sorted(gen_listed - wl)[:3], "extra": sorted(wl - gen_listed)[:3],
+                                  "empty_entries": empty[:3]})
+            else:
+                ctx.notes.append("index text could not be rebuilt from generate_index's formatting functions: "
+                                 + str(res.get("index_written_error"))[:200])
     listed_known = {f["id"] for f in common.known_findings("C16") if f.get("status") == "open"}
     for k in sorted({k for k, _ in known}):
         if k in listed_known:
